@@ -81,6 +81,58 @@ fn trigger_programs() -> Vec<P> {
     out.into_iter().map(P::normalized).collect()
 }
 
+/// Large programs for the scripted long histories (`seqx::Policy`): many members, deep chains, deep
+/// nesting - sizes around and above the constants that occur in crux and its dependencies (slab and
+/// queue capacities, futures' join_all switch at 30, sort thresholds at 20/32).
+pub fn scale_programs(legacy: bool) -> Vec<P> {
+    let req = || P::Req(s0());
+    let many = |n: usize, f: &dyn Fn(usize) -> P| P::All((0..n).map(f).collect());
+    let mut out = vec![
+        many(33, &|_| req()),
+        many(70, &|_| req()),
+        many(40, &|i| if i % 8 == 0 { P::Stream(s0()) } else if i % 5 == 0 { P::Notify(s0()) } else { req() }),
+        many(24, &|i| if i % 2 == 0 { P::Burst(s0(), s0()) } else { P::Join(s0(), s0()) }),
+        (0..24).fold(req(), |acc, _| P::then(acc, req())),
+        (0..24).fold(req(), |acc, i| P::and(acc, if i % 6 == 0 { P::Stream(s0()) } else { req() })),
+    ];
+    if !legacy {
+        out.push((0..12).fold(P::All(vec![req(), req()]), |acc, i| if i % 3 == 0 { P::MapEvent(Box::new(acc)) } else if i % 3 == 1 { P::All(vec![acc, req()]) } else { P::FromInto(Box::new(acc)) }));
+        out.push(many(20, &|i| match i % 5 { 0 => P::ReqReq(s0(), s0()), 1 => P::SpawnJoin(s0(), s0()), 2 => P::Select(s0(), s0()), 3 => P::StreamUntil(s0(), s0()), _ => P::Channel(s0(), s0()) }));
+        out.push(many(36, &|i| if i % 4 == 0 { P::StreamReq(s0(), s0()) } else { P::ReqMap(s0()) }));
+    }
+    out.into_iter().map(P::normalized).collect()
+}
+
+fn scale_suites(hosts: &[HostKind]) -> Vec<Suite> {
+    let mut v = vec![];
+    for &host in hosts {
+        let legacy = host == HostKind::CoreLegacy;
+        let progs: Vec<P> = if legacy { scale_programs(true).into_iter().filter(app::legacy_ok).collect() } else { scale_programs(false) };
+        let silent = if host.is_core() { 0 } else { 200 };
+        for name in ["scale/low-first", "scale/high-first", "scale/alternate", "scale/drop-third", "scale/silent-pairs"] {
+            if name == "scale/drop-third" && !host.can_drop() {
+                continue;
+            }
+            if name == "scale/silent-pairs" && host.is_core() {
+                continue;
+            }
+            v.push(Suite { name, host, programs: progs.clone(), bounds: Bounds { depth: 600, items_per_stream: 2, max_aborts: 0, max_silent: silent, max_late: 0, abort_before_start: false } });
+        }
+    }
+    v
+}
+
+pub fn policy_of(suite: &str) -> Option<seqx::Policy> {
+    Some(match suite {
+        "scale/low-first" => seqx::Policy::LowFirst,
+        "scale/high-first" => seqx::Policy::HighFirst,
+        "scale/alternate" => seqx::Policy::Alternate,
+        "scale/drop-third" => seqx::Policy::DropThird,
+        "scale/silent-pairs" => seqx::Policy::SilentPairs,
+        _ => return None,
+    })
+}
+
 /// A task that drives a nested command by hand (public `Stream` impl) while also awaiting a request
 /// of its own: the hosting task has a wake source besides the command it hosts. Command-level hosts.
 pub fn join_hosted_programs(thorough: bool) -> Vec<P> {
@@ -259,6 +311,18 @@ fn lookalike_programs() -> Vec<P> {
 }
 
 pub fn suites(id: &str, tier: Tier) -> Vec<Suite> {
+    let mut v = suites_tree(id, tier);
+    v.extend(match id {
+        "C01" => scale_suites(&[HostKind::CoreCmd, HostKind::Bincode]),
+        "C02" => scale_suites(&[HostKind::Direct, HostKind::Json]),
+        "C05" => scale_suites(&[HostKind::StreamPoll, HostKind::CoreLegacy, HostKind::CoreCmd]),
+        "C07" => scale_suites(&[HostKind::Direct]),
+        _ => vec![],
+    });
+    v
+}
+
+fn suites_tree(id: &str, tier: Tier) -> Vec<Suite> {
     let q = tier == Tier::Quick;
     let all = dsl::all_atoms();
     let plain = |n| dsl::terms_up_to(n, &all, Grammar::plain());
@@ -432,6 +496,7 @@ pub fn run_suites(rep: &Reporter, suites: &[Suite], deadline_s: f64, node_cap: u
         let mut ex = Explorer::new(s.host, p, &s.bounds);
         ex.node_cap = node_cap;
         ex.deadline = Some(&deadline);
+        ex.policy = policy_of(s.name);
         ex.run();
         let found: Vec<_> = ex.found.into_iter().map(|f| (f.failure, f.history)).collect();
         (ex.stats, found, ex.sample)
